@@ -208,6 +208,8 @@ PRED_CLASSES = ["op=win", "op=draw", "op=rank", "n=2", "n=3", "n=8", "kind=PL", 
 
 
 def plan_C09(run):
+    # spec -> code: the three predictions on every game over the cast (all shapes, up to 3 quick / 4 thorough teams), five models
+    mc.lattice(run, "predict", ALL_KINDS, ["default"], q(run, 4, 5), q(run, 3, 4), style="predict", invariants=mc.INV_PREDICT)
     n = q(run, 800, 20000)
     campaign(run, "predict-campaign", {"C09"}, lambda s, r: drivers.predict_campaign(s, r, n))
     run.require_classes(PRED_CLASSES, "predict-campaign")
@@ -219,6 +221,8 @@ def plan_C09(run):
 
 
 def plan_C10(run):
+    # spec -> code: the three predictions on every game over the cast (all shapes, up to 3 quick / 4 thorough teams), five models
+    mc.lattice(run, "predict", ALL_KINDS, ["default"], q(run, 4, 5), q(run, 3, 4), style="predict", invariants=mc.INV_PREDICT)
     n = q(run, 800, 20000)
     campaign(run, "predict-campaign", {"C10"}, lambda s, r: drivers.predict_campaign(s, r, n))
     run.require_classes(PRED_CLASSES, "predict-campaign")
@@ -231,6 +235,8 @@ def plan_C10(run):
 
 
 def plan_C11(run):
+    # spec -> code: the three predictions on every game over the cast (all shapes, up to 3 quick / 4 thorough teams), five models
+    mc.lattice(run, "predict", ALL_KINDS, ["default"], q(run, 4, 5), q(run, 3, 4), style="predict", invariants=mc.INV_PREDICT)
     n = q(run, 800, 20000)
     campaign(run, "predict-campaign", {"C11"}, lambda s, r: drivers.predict_campaign(s, r, n))
     run.require_classes(PRED_CLASSES, "predict-campaign")
@@ -242,6 +248,8 @@ def plan_C11(run):
 
 
 def plan_C12(run):
+    # spec -> code: the three predictions on every game over the cast (all shapes, up to 3 quick / 4 thorough teams), five models
+    mc.lattice(run, "predict", ALL_KINDS, ["default"], q(run, 4, 5), q(run, 3, 4), style="predict", invariants=mc.INV_PREDICT)
     n = q(run, 1200, 30000)
     campaign(run, "predict-campaign", {"C12"}, lambda s, r: drivers.predict_campaign(s, r, n))
     run.require_classes(PRED_CLASSES, "predict-campaign")
